@@ -7,7 +7,7 @@
    [on_circle a] says cos^2 + sin^2 = 1; [rt] is instantiated with the real [sqrt];
    vectors are tuples, matrices tuples of rows; [is_rot m] = "m^T m = I and det m = 1". *)
 From Coq Require Import Reals List Bool.
-From Verif Require Import Base.Num C19.Model C19.Proofs.
+From Verif Require Import Base.Num C19.Model Gen.GeometryFormulas C19.Proofs.
 Import ListNotations.
 Local Open Scope R_scope.
 
@@ -49,6 +49,40 @@ Theorem rotation_preserves_inner_products :
      mm3 (tr3 m) m = id3 -> dot3 (mv3 m v) (mv3 m w) = dot3 v w).
 Proof. exact rotation_preserves_inner_products_l. Qed.
 Print Assumptions rotation_preserves_inner_products.
+
+(* ---- tie to the source by REGENERATION: Gen/GeometryFormulas.v holds the matrix literals of euler_matrix, the
+   entries of axis_rotation_matrix (cos*I + (1-cos)*outer + sin*cross, re-assembled from the source expression)
+   and the native surface / surface_deriv vectors of the curved detectors, re-emitted from /repo on every run by
+   translate/geometry_formulas.py (fail closed).  The hand-written model IS these formulas, and the generated
+   matrices are rotations -- a changed sign in one source entry breaks these proofs. *)
+Theorem model_uses_generated_rotation_formulas :
+  (forall c s : R, euler2 (c, s) = gen_euler2 c s) /\
+  (forall c1 s1 c2 s2 c3 s3 : R, euler3 (c1, s1) (c2, s2) (c3, s3) = gen_euler3 c1 s1 c2 s2 c3 s3) /\
+  (forall x y z c s : R, axis_rot (x, y, z) (c, s) = gen_axis_rot x y z c s).
+Proof. exact model_is_generated_rotations. Qed.
+Print Assumptions model_uses_generated_rotation_formulas.
+
+Theorem generated_rotation_matrices_are_rotations :
+  (forall c s : R, c * c + s * s = 1 -> is_rot2 (gen_euler2 c s)) /\
+  (forall c1 s1 c2 s2 c3 s3 : R, c1 * c1 + s1 * s1 = 1 -> c2 * c2 + s2 * s2 = 1 -> c3 * c3 + s3 * s3 = 1 ->
+     is_rot3 (gen_euler3 c1 s1 c2 s2 c3 s3)) /\
+  (forall x y z c s : R, x * x + y * y + z * z = 1 -> c * c + s * s = 1 -> is_rot3 (gen_axis_rot x y z c s)).
+Proof. exact generated_rotations_are_rotations. Qed.
+Print Assumptions generated_rotation_matrices_are_rotations.
+
+Theorem model_uses_generated_surface_formulas :
+  (forall (ax : R * R) (r u cu su : R),
+     surf2 (Circ ax r) (u, (cu, su)) = add2 (mv2 (circ_rot ax) (gen_circ_surf cu su r)) (circ_transl ax r) /\
+     deriv2 (Circ ax r) (u, (cu, su)) = mv2 (circ_rot ax) (gen_circ_deriv cu su r)) /\
+  (forall (a0 a1 : R * R * R) (r : R) m (u v cu su cv sv : R),
+     surf3 (Cyl a0 a1 r m) (u, v, (cu, su), (cv, sv)) = add3 (mv3 m (gen_cyl_surf cu su v r)) (curved_transl r m) /\
+     deriv3 (Cyl a0 a1 r m) (u, v, (cu, su), (cv, sv)) = (mv3 m (gen_cyl_dphi cu su r), mv3 m (0, 0, 1))) /\
+  (forall (a0 a1 : R * R * R) (r : R) m (u v cu su cv sv : R),
+     surf3 (Sph a0 a1 r m) (u, v, (cu, su), (cv, sv)) = add3 (mv3 m (gen_sph_surf cu su cv sv r)) (curved_transl r m) /\
+     deriv3 (Sph a0 a1 r m) (u, v, (cu, su), (cv, sv)) =
+       (mv3 m (gen_sph_dphi cu su cv sv r), mv3 m (gen_sph_dtheta cu su cv sv r))).
+Proof. exact model_is_generated_surfaces. Qed.
+Print Assumptions model_uses_generated_surface_formulas.
 
 (* ====== 2. detector point = reference point + rotated surface point; rigid motion ====== *)
 (* By definition of the model (Geometry.det_point_position) the detector point IS
